@@ -323,6 +323,30 @@ def a5_run(carve):
                 ("group_by(a) >> group_by(b, add=True) >> summarize(n=count())", lambda: t >> pdt.group_by(t.a) >> pdt.group_by(t.b, add=True) >> pdt.summarize(n=pdt.count()), ["a", "b", "n"], oracle((0, 1), (cnt,))),
                 ("group_by(a) >> group_by(b) >> summarize(n=count())  [second group_by replaces]", lambda: t >> pdt.group_by(t.a) >> pdt.group_by(t.b) >> pdt.summarize(n=pdt.count()), ["b", "n"], oracle((1,), (cnt,))),
             ]
+            # computed grouping keys: case expressions / maps with literal branch values, booleans, arithmetic, a constant
+            def keyed(label, key_expr, key_py, extra=()):
+                keys_py = [(lambda r, i=i: r[i]) for i in extra] + [key_py]
+                groups = {}
+                for r in rows:
+                    groups.setdefault(tuple(f(r) for f in keys_py), []).append(r)
+                want = [k + (len(g),) for k, g in groups.items()]
+                names = ["abch"[i] for i in extra] + ["k", "n"]
+
+                def mk():
+                    x = t >> pdt.mutate(k=key_expr(t))
+                    return x >> pdt.group_by(*[t["abch"[i]] for i in extra], x.k) >> pdt.summarize(n=pdt.count())
+
+                cases.append((f"mutate(k={label}) >> group_by({','.join(names[:-1])}) >> summarize(n=count())", mk, names, want))
+
+            keyed("when(a > 1).then(1).otherwise(0)", lambda t: pdt.when(t.a > 1).then(1).otherwise(0), lambda r: 1 if (r[0] is not None and r[0] > 1) else 0)
+            keyed("when(a > 1).then(1).otherwise(0)", lambda t: pdt.when(t.a > 1).then(1).otherwise(0), lambda r: 1 if (r[0] is not None and r[0] > 1) else 0, extra=(1,))
+            keyed("when(b == 'x').then('p')  [no otherwise]", lambda t: pdt.when(t.b == "x").then("p"), lambda r: "p" if r[1] == "x" else None)
+            keyed("b.map({'x': 'u'}, default='v')", lambda t: t.b.map({"x": "u"}, default=pdt.lit("v")), lambda r: "u" if r[1] == "x" else "v")
+            keyed("a.is_null()", lambda t: t.a.is_null(), lambda r: r[0] is None)
+            keyed("h % 2", lambda t: t.h % 2, lambda r: r[3] % 2, extra=(0,))
+            keyed("lit(5)", lambda t: pdt.lit(5), lambda r: 5)
+            keyed("lit(5)", lambda t: pdt.lit(5), lambda r: 5, extra=(1,))
+            keyed("lit(5, Int64)", lambda t: pdt.lit(5, pdt.Int64()), lambda r: 5, extra=(1,))
             for label, mk, cols, want in cases:
                 n += 1
                 try:
